@@ -4,7 +4,7 @@ import vlib, engine_common as ec
 
 TB = ["Print Assumptions: C03_core_once, C03_core_justified, C03_core_justified_unguarded_refuted, C03_fw_once closed under the global context",
       "the theorems are about Engine/Core.v (inputs + Normal queries); executions of firewalls / projections / external inputs are judged on the real engine by the harness (justification of every executor invocation from its own record of previous reads) and compared with the full model, not proved (partial)",
-      "known finding c03_projection_changeback (see known_findings.txt) is recognised by its shape: a projection re-run by backward projection whose reads are unchanged since its own last run because a dependency changed and changed back",
+      "the former finding c03_projection_changeback (repaired in /repo, 2e5f36f) is replayed from witness/c03_changeback.txt on every run and must stay clean",
       ] + ec.ENGINE_TB
 
 def run(ctx):
@@ -35,13 +35,8 @@ def run(ctx):
         dis_all += [{"mode": mode, "cfg": cfg, **x} for x in dis]
         if not samples:
             samples = ec.sample_lines(d)
-    # recorded finding, replayed deterministically from its witness
+    # regression corpus: the repaired finding c03_projection_changeback (known_findings.txt: fixed 2e5f36f)
     status, txt = ec.replay_witness(os.path.join(vlib.VERIF, "witness", "c03_changeback.txt"), cyclic=False)
-    if "known changeback: [\"" in txt:
-        ctx.finding("c03_projection_changeback", "witness/c03_changeback.txt: projection P0 is re-executed by backward projection although F0 has the value P0 saw at its last run (F0 changed and changed back in between)",
-                    {"witness": open(os.path.join(vlib.VERIF, "witness", "c03_changeback.txt")).read(), "output": txt[-600:]})
-    elif changeback:
-        ctx.finding("c03_projection_changeback", changeback[0]["what"], changeback[0])
     if status not in ("ok",):
         real_fail.append({"mode": "witness c03_changeback", "violation": status, "scenario": txt[-1500:]})
     if real_fail:
